@@ -257,6 +257,7 @@ def direct_version_oracle(case):
     Returns the index of the first op that violates this, or None."""
     w = WORLDS[case['world']]
     dver = []            # version of every recorded direct handle, None when unknown
+    dkey = []            # its key word (dense index and packed archetype id), None when unknown
     seen = None          # (op index, arch index, version) of the latest `len` observation, valid only for the next ops that are lookups
     for i, (o, ob) in enumerate(zip(case['ops'], case['obs'])):
         if ob is None:
@@ -265,11 +266,13 @@ def direct_version_oracle(case):
         if k == 'todirect':
             if ob and ob[0] == 1:
                 dver.append(ob[2])
+                dkey.append(ob[1])
             continue_seen = True
         elif k in ('find', 'iter', 'iterd'):
             n_before = len(dver)
             org = direct_origins(w, case['ops'][:i + 1], case['obs'][:i + 1])
             dver += [None] * (len(org) - len(dver))
+            dkey += [None] * (len(org) - len(dkey))
             continue_seen = (k == 'find')
         else:
             continue_seen = k in ('probe', 'len')
@@ -283,7 +286,17 @@ def direct_version_oracle(case):
                 # which archetype does the key address? for a world-level lookup its packed id, else the named archetype
                 accepted = bool(ob) and ob[0] == 1
                 lvl = o[1] if k == 'probe' else 'w'
-                if accepted and (lvl == 'w' or lvl == ('a', seen[1])):
+                ty = o[3] if k == 'probe' else o[4]
+                if lvl == 'w':
+                    # the archetype a world-level lookup addresses: the static one of a typed key, else the one whose id the key packs
+                    if ty != 'any':
+                        addressed = ty[1]
+                    else:
+                        kid = dkey[ref[1]] & 0xff if ref[1] < len(dkey) and dkey[ref[1]] is not None else None
+                        addressed = w.ids.index(kid) if kid in w.ids else None
+                else:
+                    addressed = lvl[1]
+                if accepted and addressed == seen[1]:
                     return i
         if not continue_seen:
             seen = None
